@@ -25,6 +25,7 @@ TRANSPARENT = set(norm(p) for p in [
     "std::option::Option::<T>::as_ref", "std::option::Option::<T>::as_mut",
     "std::option::Option::<T>::unwrap", "std::option::Option::<T>::expect",
     "std::result::Result::<T, E>::unwrap", "std::result::Result::<T, E>::expect",
+    "std::mem::ManuallyDrop::<T>::into_inner", "std::mem::ManuallyDrop::<T>::new",
     "std::ops::Try::branch", "std::result::Result::<T, E>::map_err", "std::path::Path::new",
     "std::vec::Vec::<T, A>::as_slice", "core::slice::<impl [T]>::to_vec", "std::slice::<impl [T]>::to_vec",
     "std::string::String::as_bytes", "std::string::String::as_str", "std::iter::IntoIterator::into_iter",
@@ -43,7 +44,8 @@ OR_DEFAULT = set(norm(p) for p in [
 
 
 class Slicer(object):
-    def __init__(self, world, body, transparent=None, local_transparent=(), follow_local=True):
+    def __init__(self, world, body, transparent=None, local_transparent=(), follow_local=True, skip_err=False):
+        self.skip_err = skip_err
         self.world = world
         self.prog = world.prog
         self.body = body
@@ -119,6 +121,8 @@ class Slicer(object):
                         out.add(("agg", rv["def"], bb, tuple(path)))
                 elif ak == "closure":
                     out.add(("agg", "closure:" + rv["def"], bb, tuple(path)))
+                elif self.skip_err and rv.get("def") == "std::result::Result" and rv.get("vn") == "Err":
+                    pass
                 elif ak == "tuple" and path and path[0].startswith("#") and int(path[0][1:]) < len(rv["ops"]):
                     out |= self._operand(rv["ops"][int(path[0][1:])], path[1:], visiting)
                 else:
@@ -183,6 +187,18 @@ class Slicer(object):
         return {("call", p, bb, tuple(path))}
 
     # convenience -------------------------------------------------------------------------
+    def leaves_of_rv(self, rv, bb):
+        """Leaves of an rvalue as it stands in an assignment: a checked `x += n` is `x = move (_t.0)` (use of the
+        overflow-check tuple), an unchecked one is `x = Add(x, n)` - both come out as a binop leaf."""
+        k = rv["k"]
+        if k in ("use", "cast"):
+            return self.leaves_of_operand(rv["op"])
+        if k == "binop":
+            return {("binop", rv["op"], bb, ())}
+        if k == "unop":
+            return self.leaves_of_operand(rv["a"])
+        return {("unknown", k, ())}
+
     def leaves_up(self, op, path=(), depth=3):
         """leaves_of_operand, with the parameters of crate-private helpers replaced by the origins of the arguments
         at every call site (so that extracting a helper does not hide where a value comes from)."""
@@ -232,6 +248,37 @@ def _tag(leaf, body):
     if k in ("call", "agg", "binop", "discr") and not isinstance(leaf[2], tuple):
         return (k, leaf[1], (body.path, leaf[2])) + tuple(leaf[3:])
     return leaf
+
+
+def expand_down(world, body, leaves, depth=4, _seen=None, stop=()):
+    """Replaces the result of a call to a crate-local function by the origins of what that function returns on its
+    Ok path (the parameters among them mapped back to the arguments of the call), recursively."""
+    from .core import Site
+    prog = world.prog
+    _seen = _seen or frozenset()
+    out = set()
+    for l in leaves:
+        if l[0] == "call" and depth > 0:
+            lb = prog.bodies[l[2][0]] if isinstance(l[2], tuple) else body
+            bb = l[2][1] if isinstance(l[2], tuple) else l[2]
+            t = lb.blocks[bb]["term"]
+            tgt = prog.local_target(Site(lb, bb, t))
+            if tgt is not None and (tgt.path, l[3]) not in _seen and tgt.path not in stop:
+                sl = Slicer(world, tgt, skip_err=True)
+                sub = sl.leaves_of_place({"l": 0, "p": []}, l[3])
+                sub = set(x for x in sub if not (x[0] == "call" and (x[1] or "").endswith("from_residual")))
+                res = set()
+                csl = Slicer(world, lb, skip_err=True)
+                for x in sub:
+                    if x[0] == "param" and x[1] - 1 < len(t["args"]):
+                        for y in csl.leaves_of_operand(t["args"][x[1] - 1], x[2]):
+                            res.add(_tag(y, lb) if lb is not body else y)
+                    else:
+                        res.add(_tag(x, tgt))
+                out |= expand_down(world, body, res, depth - 1, _seen | {(tgt.path, l[3])}, stop)
+                continue
+        out.add(l)
+    return out
 
 
 def expand_up(world, body, leaves, depth=3, slicer=None, _seen=None):
